@@ -217,8 +217,20 @@ def run_stops(case):
     from tracklib.core import ObsTime, ENUCoords, Obs, Track
     sg = sys.modules['tracklib.algo.segmentation']
     tr = Track([Obs(ENUCoords(float(x), 0.0, float(z)), ObsTime.readUnixTime(1000 + t)) for x, z, t in zip(case['x'], case['z'], case['t'])])
-    st = sg.findStopsGlobal(tr, case['diameter'], case['duration'], 1, False)
-    return {'stops': [[int(st['id_ini', i]), int(st['id_end', i]), int(st['nb_points', i])] for i in range(st.size())]}
+    import random
+    runs = []
+    for seed in case.get('seeds', range(6)):        # the enclosing-circle routine draws random numbers: the result must not depend on them
+        random.seed(seed)
+        st = sg.findStopsGlobal(tr, case['diameter'], case['duration'], 1, False)
+        runs.append([[int(st['id_ini', i]), int(st['id_end', i]), int(st['nb_points', i])] for i in range(st.size())])
+    worst = min(runs, key=lambda r: (sum(s[2] ** 2 for s in r), -len(r)))
+    odd = next((r for r in runs if r != runs[0]), None)
+    return {'stops': odd if odd is not None and _bad_stops(case, odd) else worst, 'runs': runs}
+
+
+def _bad_stops(case, stops):
+    C = stops_matrix(case)
+    return any(not (0 <= a <= b < len(case['x'])) or b + 1 >= len(C) or C[a][b + 1] != nb ** 2 for a, b, nb in stops)
 
 
 def coq_stops(case, obs):
